@@ -58,7 +58,8 @@ def run_tiling(case, d, paths, k, sched, real=False):
                 proc.tile(pio, parallel=k)
         else:
             world = SimWorld(sched)
-            w, res = scen.run_sim(lambda: proc.tile(pio, parallel=k), None, world=world)
+            with scen.critical_section_yields(world):
+                w, res = scen.run_sim(lambda: proc.tile(pio, parallel=k), None, world=world)
             if res["status"] == "hang":
                 raise Violation("tile", f"parallel tiling never returns: {res['hang']}")
             if res["status"] == "raised":
